@@ -1,0 +1,18 @@
+//go:build verif
+
+package jsonrpc
+
+import (
+	"github.com/filecoin-project/go-jsonrpc"
+
+	internal "github.com/evstack/ev-node/da/jsonrpc/internal"
+)
+
+// Hooks for the external verification harness (/verif). Compiled only with
+// `-tags verif`; they expose package-private values and change no behaviour.
+
+// VerifKnownErrors returns the error registry that both NewClient and NewServer install.
+func VerifKnownErrors() jsonrpc.Errors { return getKnownErrorsMapping() }
+
+// VerifDefaultMaxBlobSize returns the blob size limit a new client starts with.
+func VerifDefaultMaxBlobSize() uint64 { return internal.DefaultMaxBytes }
